@@ -43,7 +43,7 @@ use crate::proto::{Ctx, attrs};
 pub fn meta() -> Meta {
     Meta {
         level: "fault_enumeration",
-        rule: "round trip: every (kind in {bdd,bcdd,zbdd,mtbdd<i64>} x all 6 orders of 3 variables (tdd: 2 variables, both orders) x variable-name configuration (10, incl. names that equal a generated name only after sanitising) x root set (empty, every single function, all pairs of a 24-function set, 3 triples with a repeated and a constant root) x {ascii,binary} x {2.0,3.0} x {strict,lax} x root names {none, valid, to-be-sanitised}) is exported and re-imported four ways (same manager; fresh manager with the order from the header; renaming onto the first variables of a manager with one more variable; renaming onto the last variables of a manager with min(2n, 6) variables, i.e. onto levels the exporting manager does not have), and additionally through readers that deliver the file 1, 2, 3 and 5 bytes at a time; thorough adds n=4 (4 orders, functions with unused variables). faults: for each of the valid files every proper prefix and every position x byte of the alphabet {0x00,\\n,space,0,9,-,.,A,B,0x7f,0xff} (thorough: all 256 bytes; binary node section always all 256 values on the first 64 node bytes) plus a few hand-made oversized-count headers. A round-trip case is non-trivial when at least one root has an inner node; a mutant is non-trivial when it differs from the original file (identical substitutions are skipped and not counted).",
+        rule: "round trip: every (kind in {bdd,bcdd,zbdd,mtbdd<i64>} x all 6 orders of 3 variables (tdd: 2 variables, both orders) x variable-name configuration (10, incl. names that equal a generated name only after sanitising) x root set (empty, every single function, all pairs of a 24-function set, 3 triples with a repeated and a constant root) x {ascii,binary} x {2.0,3.0} x {strict,lax} x root names {none, valid, to-be-sanitised}) is exported and re-imported four ways (same manager; fresh manager with the order from the header; renaming onto the first variables of a manager with one more variable; renaming onto the last variables of a manager with min(2n, 6) variables, i.e. onto levels the exporting manager does not have), and additionally through readers that deliver the file 1, 2, 3 and 5 bytes at a time; thorough adds n=4 (4 orders, functions with unused variables). faults: for each of the valid files every proper prefix and every position x byte of the alphabet {0x00,\\n,space,0,9,-,.,A,B,0x7f,0xff} (thorough: all 256 bytes; binary node section always all 256 values on the first 64 node bytes) plus a few hand-made oversized-count headers. For the audited subset of the round trips the export is repeated into a sink that accepts k bytes and then fails, for every k below the file length (short write, then errors): the export must return an error and what reached the sink must be a prefix of the file. A round-trip case is non-trivial when at least one root has an inner node; a mutant is non-trivial when it differs from the original file (identical substitutions are skipped and not counted).",
         assumptions: vec![
             "original diagrams are built through DiagramRules::reduce + then_insert and read back by the harness's own interpreter".into(),
             "the fresh-manager order is reconstructed from DumpHeader::{num_vars, support_vars, support_var_to_level} only (unused variables fill the remaining levels in ascending order)".into(),
@@ -289,11 +289,50 @@ where
     for<'id> TermOfFunc<'id, F>: AsciiDisplay,
 {
     let mut buf = Vec::new();
-    let r = mref.with_manager_shared(|m| match names {
-        None => s.export(&mut buf, m, roots.iter().copied()),
-        Some(ns) => s.export_with_names(&mut buf, m, roots.iter().copied().zip(ns.iter().map(|s| s.as_str()))),
+    let limit = FAIL_AFTER.with(|c| c.get());
+    let r = mref.with_manager_shared(|m| {
+        let mut w = FailingWriter { buf: &mut buf, left: limit };
+        match names {
+            None => s.export(&mut w, m, roots.iter().copied()),
+            Some(ns) => s.export_with_names(&mut w, m, roots.iter().copied().zip(ns.iter().map(|s| s.as_str()))),
+        }
     });
     (buf, r)
+}
+
+thread_local! {
+    /// Some(k): the sink of `do_export` accepts k bytes and fails from then on (a full disk, a closed pipe)
+    static FAIL_AFTER: std::cell::Cell<Option<usize>> = const { std::cell::Cell::new(None) };
+}
+
+struct FailingWriter<'a> {
+    buf: &'a mut Vec<u8>,
+    left: Option<usize>,
+}
+
+impl io::Write for FailingWriter<'_> {
+    fn write(&mut self, data: &[u8]) -> io::Result<usize> {
+        match &mut self.left {
+            None => {
+                self.buf.extend_from_slice(data);
+                Ok(data.len())
+            }
+            Some(0) => Err(io::Error::new(io::ErrorKind::StorageFull, "harness: the sink is full")),
+            Some(left) => {
+                // short write: take what still fits
+                let n = data.len().min(*left);
+                self.buf.extend_from_slice(&data[..n]);
+                *left -= n;
+                Ok(n)
+            }
+        }
+    }
+    fn flush(&mut self) -> io::Result<()> {
+        match self.left {
+            Some(0) => Err(io::Error::new(io::ErrorKind::StorageFull, "harness: the sink is full")),
+            _ => Ok(()),
+        }
+    }
 }
 
 fn named_manager<R: ManagerRef>(mref: &R, names: &[String]) {
@@ -973,6 +1012,23 @@ fn run_case<K: K15>(env: &Env<K>, c: &Case, deep_audit: bool) -> CaseOut {
             out.outcomes.push("export:strict_err".into());
         }
         (Ok(()), false) => out.outcomes.push("export:ok".into()),
+    }
+    // ---- the sink fails after k bytes, for every k: the export must report it -------------------------
+    if deep_audit && res.is_ok() {
+        for k in 0..bytes.len() {
+            FAIL_AFTER.with(|c| c.set(Some(k)));
+            let (b2, r2) = K::export(&env.mref, &settings, &roots, c.root_names.as_deref());
+            FAIL_AFTER.with(|c| c.set(None));
+            if r2.is_ok() {
+                out.v("write_error_swallowed", format!("the writer accepted {k} of {} bytes and failed from then on, but export returned Ok (bytes that reached the sink: {})", bytes.len(), b2.len()));
+                break;
+            }
+            if b2.len() > k || b2[..] != bytes[..b2.len()] {
+                out.v("write_error_swallowed", format!("with a writer failing after {k} bytes the sink holds {} bytes that are not a prefix of the complete file", b2.len()));
+                break;
+            }
+        }
+        out.outcomes.push("export:failing_sink_sweep".into());
     }
 
     // ---- own header reading -------------------------------------------------
